@@ -64,11 +64,28 @@ type Config struct {
 	// AfterEvent (C15, optional, default off): the toy application also emits one event from AfterTransactionsExecute
 	// (generation and validation), and Build covers it in the event root
 	AfterEvent bool `json:"afterEvent,omitempty"`
+	// CacheSize (C19, optional): blocks kept in the chain's block cache (0 = 515, the engine's default); a small value makes
+	// lookups below the cache window go to the database
+	CacheSize int `json:"cacheSize,omitempty"`
+	// KeepEvents (C13, optional): blockchain.ChainConfig.KeepEventsForHeights; nil = -1 (events are never pruned: what
+	// every check ran with before the field existed)
+	KeepEvents *int `json:"keepEvents,omitempty"`
+	// GenesisHeight (C04/C05, optional, default 0): height of the genesis block (a chain started from a snapshot). The
+	// heights of a Cand and of Obs stay ABSTRACT (0 = genesis): Build adds the offset, Observe subtracts it.
+	GenesisHeight uint32 `json:"genesisHeight,omitempty"`
+	// NoBeforeEvent (C03, optional, default off): the toy application emits no "before" event: a block without
+	// transactions has NO events at all (the event root of the empty list)
+	NoBeforeEvent bool `json:"noBeforeEvent,omitempty"`
 }
+
+// ErrNetwork wraps a failure to start the libp2p connection (an environment problem, never a verdict about the engine).
+var ErrNetwork = fmt.Errorf("network set-up failed")
 
 var (
 	vals   = map[int]*Val{}
 	valsMu sync.Mutex
+	// blsSigCache: certificate signing bytes + chain id + signer -> BLS signature (see AggregateCommit)
+	blsSigCache sync.Map
 )
 
 // Validator returns the deterministic key material of abstract validator id (1-based).
@@ -164,7 +181,16 @@ func (t *Toy) call(name string) error {
 	return nil
 }
 
+// Height: abstract height (0 = genesis) the application is at
 func (t *Toy) Height() int { return len(t.roots) - 1 }
+
+// rel: abstract height of a real block height
+func (t *Toy) rel(h uint32) int {
+	if t.cfg == nil {
+		return int(h)
+	}
+	return int(h) - int(t.cfg.GenesisHeight)
+}
 
 func (t *Toy) Init(req *labi.InitRequest) (*labi.InitResponse, error) { return &labi.InitResponse{}, nil }
 func (t *Toy) InitStateMachine(req *labi.InitStateMachineRequest) (*labi.InitStateMachineResponse, error) {
@@ -191,11 +217,27 @@ func (t *Toy) VerifyAssets(req *labi.VerifyAssetsRequest) (*labi.VerifyAssetsRes
 
 // BlockEvents is what the toy application emits for a block (the builder derives the event root from it).
 func BlockEvents(height uint32, txs []*blockchain.Transaction) []*blockchain.Event {
+	return BlockEventsWith(height, txs, false)
+}
+
+// FailCommand: a transaction with this command executes with result Fail (it stays in the block, its event says "failed").
+const FailCommand = "fail"
+
+// AfterEvent is the event the toy application emits from AfterTransactionsExecute when Config.AfterEvent is set.
+func AfterEvent(height uint32) *blockchain.Event {
+	return blockchain.NewEventFromValues("toy", "after", []byte{2}, []codec.Hex{[]byte("after")}, height, 0)
+}
+
+// BlockEventsWith: BlockEvents, optionally followed by the event of the after-transactions hook.
+func BlockEventsWith(height uint32, txs []*blockchain.Transaction, after bool) []*blockchain.Event {
 	evs := blockchain.Events{}
 	evs = append(evs, blockchain.NewEventFromValues("toy", "before", []byte{1}, []codec.Hex{[]byte("before")}, height, 0))
 	for _, tx := range txs {
 		evs = append(evs, blockchain.NewEventFromValues("toy", blockchain.EventNameDefault,
-			blockchain.NewStandardTransactionEventData(true), []codec.Hex{tx.ID}, height, 0))
+			blockchain.NewStandardTransactionEventData(tx.Command != FailCommand), []codec.Hex{tx.ID}, height, 0))
+	}
+	if after {
+		evs = append(evs, AfterEvent(height))
 	}
 	evs.UpdateIndex()
 	return evs
@@ -205,6 +247,9 @@ func (t *Toy) BeforeTransactionsExecute(req *labi.BeforeTransactionsExecuteReque
 	if err := t.call("BeforeTransactionsExecute"); err != nil {
 		return nil, err
 	}
+	if t.cfg != nil && t.cfg.NoBeforeEvent {
+		return &labi.BeforeTransactionsExecuteResponse{Events: []*blockchain.Event{}}, nil
+	}
 	return &labi.BeforeTransactionsExecuteResponse{Events: BlockEvents(t.cur.Height, nil)}, nil
 }
 func (t *Toy) AfterTransactionsExecute(req *labi.AfterTransactionsExecuteRequest) (*labi.AfterTransactionsExecuteResponse, error) {
@@ -212,13 +257,16 @@ func (t *Toy) AfterTransactionsExecute(req *labi.AfterTransactionsExecuteRequest
 		return nil, err
 	}
 	resp := &labi.AfterTransactionsExecuteResponse{Events: []*blockchain.Event{}}
+	if t.cfg != nil && t.cfg.AfterEvent {
+		resp.Events = append(resp.Events, AfterEvent(t.cur.Height))
+	}
 	for _, a := range req.Assets {
 		if a.Module == "toy" && len(a.Data) == 1 && a.Data[0] > 0 && int(a.Data[0]) <= len(t.cfg.Choices) {
 			c := t.cfg.Choices[a.Data[0]-1]
 			resp.PreCommitThreshold, resp.CertificateThreshold, resp.NextValidators = c.PcT, c.CertT, c.Labi()
 		}
 	}
-	h := int(t.cur.Height)
+	h := t.rel(t.cur.Height)
 	if h >= 1 && h == len(t.roots) {
 		t.pending = NextRoot(t.roots[h-1], t.cur.Height, req.Transactions, req.Assets)
 	}
@@ -234,6 +282,12 @@ func (t *Toy) VerifyTransaction(req *labi.VerifyTransactionRequest) (*labi.Verif
 	return &labi.VerifyTransactionResponse{Result: labi.TxVerifyResultOk}, nil
 }
 func (t *Toy) ExecuteTransaction(req *labi.ExecuteTransactionRequest) (*labi.ExecuteTransactionResponse, error) {
+	if req.Transaction.Command == FailCommand {
+		// executed and failed: the transaction stays in the block, its event reports the failure
+		ev := blockchain.NewEventFromValues("toy", blockchain.EventNameDefault, blockchain.NewStandardTransactionEventData(false),
+			[]codec.Hex{req.Transaction.ID}, t.cur.Height, 0)
+		return &labi.ExecuteTransactionResponse{Events: []*blockchain.Event{ev}, Result: labi.TxExecuteResultFail}, nil
+	}
 	ev := blockchain.NewEventFromValues("toy", blockchain.EventNameDefault, blockchain.NewStandardTransactionEventData(true),
 		[]codec.Hex{req.Transaction.ID}, t.cur.Height, 0)
 	return &labi.ExecuteTransactionResponse{Events: []*blockchain.Event{ev}, Result: labi.TxExecuteResultSuccess}, nil
@@ -242,7 +296,7 @@ func (t *Toy) Commit(req *labi.CommitRequest) (*labi.CommitResponse, error) {
 	if err := t.call("Commit"); err != nil {
 		return nil, err
 	}
-	h := int(t.cur.Height)
+	h := t.rel(t.cur.Height)
 	if h == 0 {
 		t.roots = [][]byte{append([]byte{}, req.ExpectedStateRoot...)}
 		return &labi.CommitResponse{StateRoot: req.ExpectedStateRoot}, nil
@@ -271,7 +325,7 @@ func (t *Toy) Revert(req *labi.RevertRequest) (*labi.RevertResponse, error) {
 	if err := t.call("Revert"); err != nil {
 		return nil, err
 	}
-	h := int(t.cur.Height)
+	h := t.rel(t.cur.Height)
 	if h != len(t.roots)-1 || h == 0 {
 		return nil, fmt.Errorf("toy: revert of height %d but application is at height %d", h, len(t.roots)-1)
 	}
@@ -322,7 +376,7 @@ func genesisBlock(cfg *Config, ts uint32) *blockchain.Block {
 	}
 	g := &blockchain.Block{
 		Header: &blockchain.BlockHeader{
-			Version: 0, Timestamp: ts, Height: 0, PreviousBlockID: make([]byte, 32), GeneratorAddress: make([]byte, 20),
+			Version: 0, Timestamp: ts, Height: cfg.GenesisHeight, PreviousBlockID: make([]byte, 32), GeneratorAddress: make([]byte, 20),
 			TransactionRoot: crypto.Hash([]byte{}), AssetRoot: blockchain.BlockAssets{}.GetRoot(), EventRoot: eventRoot,
 			StateRoot: GenesisRoot, ValidatorsHash: cfg.Init.Hash(), AggregateCommit: &blockchain.AggregateCommit{
 				AggregationBits: []byte{}, CertificateSignature: []byte{}}, Signature: []byte{},
@@ -354,7 +408,15 @@ func New(cfg *Config, d *db.DB, genesisTS uint32) (*Node, error) {
 	n.DB = d
 	n.Genesis = genesisBlock(cfg, genesisTS)
 	n.Toy = &Toy{cfg: cfg}
-	n.Chain = blockchain.NewChain(&blockchain.ChainConfig{ChainID: n.ChainID, MaxTransactionsLength: cfg.MaxTxs, MaxBlockCache: 515, KeepEventsForHeights: -1})
+	cacheSize := 515
+	if cfg.CacheSize > 0 {
+		cacheSize = cfg.CacheSize
+	}
+	keepEvents := -1
+	if cfg.KeepEvents != nil {
+		keepEvents = *cfg.KeepEvents
+	}
+	n.Chain = blockchain.NewChain(&blockchain.ChainConfig{ChainID: n.ChainID, MaxTransactionsLength: cfg.MaxTxs, MaxBlockCache: cacheSize, KeepEventsForHeights: keepEvents})
 	n.Chain.Init(n.Genesis, d)
 	logger, err := log.NewSilentLogger()
 	if err != nil {
@@ -364,9 +426,9 @@ func New(cfg *Config, d *db.DB, genesisTS uint32) (*Node, error) {
 	n.Ex = consensus.NewExecuter(&consensus.ExecuterConfig{CTX: context.Background(), ABI: n.Toy, Chain: n.Chain, Conn: n.Conn,
 		BlockTime: BlockTime, BatchSize: cfg.Batch})
 	// restart: rebuild the application state (the toy keeps it in memory) from the stored chain
-	if _, err := n.Chain.DataAccess().GetBlockHeaderByHeight(0); err == nil {
+	if _, err := n.Chain.DataAccess().GetBlockHeaderByHeight(cfg.GenesisHeight); err == nil {
 		n.Toy.roots = [][]byte{GenesisRoot}
-		for h := uint32(1); ; h++ {
+		for h := cfg.GenesisHeight + 1; ; h++ {
 			hdr, err := n.Chain.DataAccess().GetBlockHeaderByHeight(h)
 			if err != nil {
 				break
@@ -380,7 +442,7 @@ func New(cfg *Config, d *db.DB, genesisTS uint32) (*Node, error) {
 	if cfg.Network {
 		// handlers are registered by Init; the connection must be started afterwards
 		if err := n.Conn.Start(crypto.RandomBytes(32)); err != nil {
-			return nil, err
+			return nil, fmt.Errorf("%w: %v", ErrNetwork, err)
 		}
 		n.started = true
 	}
@@ -473,6 +535,10 @@ type Cand struct {
 	Chg       int    `json:"chg"`
 	Ntx       int    `json:"ntx"`
 	Mut       string `json:"mut"`
+	// Asset (optional): the block carries an asset that is not a validator change
+	Asset bool `json:"asset,omitempty"`
+	// Ts (optional): where inside its slot the block is stamped: "" / "mid" (default), "last" / "first" second of the slot
+	Ts string `json:"ts,omitempty"`
 }
 
 func (n *Node) Tip() *blockchain.Block { return n.Chain.LastBlock() }
@@ -481,7 +547,7 @@ func (n *Node) Tip() *blockchain.Block { return n.Chain.LastBlock() }
 func (n *Node) CurrentParams() ParamSet {
 	p := n.Cfg.Init
 	tip := n.Tip().Header.Height
-	for h := uint32(1); h <= tip; h++ {
+	for h := n.Cfg.GenesisHeight + 1; h <= tip; h++ {
 		b, err := n.Chain.DataAccess().GetBlockByHeight(h)
 		if err != nil {
 			break
@@ -556,9 +622,16 @@ func (n *Node) AggregateCommit(h uint32, kind string, signers []int) *blockchain
 		chainID = []byte{9, 9, 9, 9}
 	}
 	for _, s := range signers {
-		c := *cert
-		c.Sign(chainID, Validator(s).BLS.PrivateKey)
-		pairs = append(pairs, &crypto.BLSPublicKeySignaturePair{PublicKey: Validator(s).BLS.PublicKey, Signature: c.Signature})
+		// BLS signatures are deterministic: one validator's signature of one certificate is computed once per process
+		ck := fmt.Sprintf("%x/%x/%d/%d/%x/%x/%d", chainID, cert.BlockID, cert.Height, cert.Timestamp, cert.StateRoot, cert.ValidatorsHash, s)
+		sig, ok := blsSigCache.Load(ck)
+		if !ok {
+			c := *cert
+			c.Sign(chainID, Validator(s).BLS.PrivateKey)
+			sig = append([]byte{}, c.Signature...)
+			blsSigCache.Store(ck, sig)
+		}
+		pairs = append(pairs, &crypto.BLSPublicKeySignaturePair{PublicKey: Validator(s).BLS.PublicKey, Signature: sig.([]byte)})
 	}
 	if len(pairs) == 0 {
 		return &blockchain.AggregateCommit{Height: h, AggregationBits: []byte{1}, CertificateSignature: []byte{}}
@@ -574,7 +647,7 @@ func (n *Node) AggregateCommit(h uint32, kind string, signers []int) *blockchain
 // ParamsAt: parameter set in force AT height h (set by a block below h).
 func (n *Node) ParamsAt(h uint32) ParamSet {
 	p := n.Cfg.Init
-	for x := uint32(1); x < h; x++ {
+	for x := n.Cfg.GenesisHeight + 1; x < h; x++ {
 		b, err := n.Chain.DataAccess().GetBlockByHeight(x)
 		if err != nil {
 			break
@@ -590,8 +663,17 @@ func (n *Node) ParamsAt(h uint32) ParamSet {
 
 // Build concretises an abstract candidate on top of the current tip.
 func (n *Node) Build(c *Cand) *blockchain.Block {
+	if g := n.Cfg.GenesisHeight; g != 0 {
+		// the candidate's heights are abstract (0 = genesis): from here on c carries the real ones
+		cc := *c
+		cc.H, cc.Mhp, cc.Ac.H = cc.H+g, cc.Mhp+g, cc.Ac.H+g
+		if cc.Mhg > 0 {
+			cc.Mhg += g
+		}
+		c = &cc
+	}
 	tip := n.Tip()
-	if c.Prev == "parent" && tip.Header.Height > 0 {
+	if c.Prev == "parent" && tip.Header.Height > n.Cfg.GenesisHeight {
 		// a competitor of the tip: built on the tip's parent
 		if pb, err := n.Chain.DataAccess().GetBlockByHeight(tip.Header.Height - 1); err == nil {
 			tip = pb
@@ -601,61 +683,43 @@ func (n *Node) Build(c *Cand) *blockchain.Block {
 	if c.Prev != "tip" && c.Prev != "parent" {
 		prev = crypto.Hash([]byte("some other block"))
 	}
-	txs := []*blockchain.Transaction{}
-	for i := 0; i < c.Ntx; i++ {
-		switch {
-		case c.TxStatic == "bad" && i == 0:
-			tx := toyTx(uint64(c.H)*10+uint64(i), "ok", 10)
-			tx.Module = "toy module!" // not alphanumeric: statically invalid
-			tx.Init()
-			txs = append(txs, tx)
-		case c.Payload == "toolarge" && i == 0:
-			// two transactions whose total size exceeds MaxTransactionsLength (each params <= 14 KiB)
-			txs = append(txs, toyTx(uint64(c.H)*10, "ok", int(n.Cfg.MaxTxs)/2+200), toyTx(uint64(c.H)*10+1, "ok", int(n.Cfg.MaxTxs)/2+200))
-		case c.Payload == "big":
-			// a valid block with a payload of megabytes (needs a node configured with a large MaxTransactionsLength)
-			txs = append(txs, toyTx(uint64(c.H)*1000+uint64(i), "ok", 14000))
-		default:
-			txs = append(txs, toyTx(uint64(c.H)*10+uint64(i), "ok", 10))
-		}
-	}
+	txs := n.buildTxs(c) // build_c03.go: c.Ntx transactions, a statically invalid one (c.TxStatic) LAST; c.Payload: size classes
 	assets := blockchain.BlockAssets{}
 	if c.Chg > 0 {
 		assets = append(assets, &blockchain.BlockAsset{Module: "toy", Data: []byte{byte(c.Chg)}})
 	}
+	if c.Asset {
+		// an asset that is no validator change (module names sorted: "toy" < "toz")
+		assets = append(assets, &blockchain.BlockAsset{Module: "toz", Data: []byte{0xa5, byte(c.H), byte(c.Slot)}})
+	}
+	assets = append(assets, extraAssets(c)...) // c.AssetRoot "unsorted" / "duplicate": an invalid list under a matching root
 	txIDs := [][]byte{}
 	for _, tx := range txs {
 		txIDs = append(txIDs, tx.ID)
 	}
-	next := n.ParamsAt(tip.Header.Height + 1)
+	current := n.ParamsAt(tip.Header.Height + 1)
+	next := current
 	if c.Chg > 0 {
 		next = n.Cfg.Choices[c.Chg-1]
 	}
-	evs := BlockEvents(c.H, txs)
-	eventRoot, err := blockchain.CalculateEventRoot(evs)
-	if err != nil {
-		panic(err)
-	}
+	// c.EventRoot: "ok", "bad" (a flipped byte), "altered-*" (the root over truly different events); c.VHash: "ok", "bad",
+	// "other-set" / "old" (the hash of another well-formed validator set); c.Ts: where inside the slot
 	hdr := &blockchain.BlockHeader{
-		Version: uint32(c.Version), Timestamp: n.Slot.GetSlotTime(c.Slot) + tsOffset(), Height: c.H, PreviousBlockID: prev,
+		Version: uint32(c.Version), Timestamp: n.timestamp(c), Height: c.H, PreviousBlockID: prev,
 		GeneratorAddress: Validator(c.Gen).Address, TransactionRoot: rmt.CalculateRoot(txIDs), AssetRoot: assets.GetRoot(),
-		EventRoot: eventRoot, StateRoot: NextRoot(tip.Header.StateRoot, c.H, txs, assets), MaxHeightPrevoted: c.Mhp, MaxHeightGenerated: c.Mhg,
-		ImpliesMaxPrevotes: true, ValidatorsHash: next.Hash(), AggregateCommit: n.AggregateCommit(c.Ac.H, c.Ac.Kind, c.Ac.Signers),
+		EventRoot: eventRoot(c, n.blockEvents(c.H, txs)), StateRoot: NextRoot(tip.Header.StateRoot, c.H, txs, assets), MaxHeightPrevoted: c.Mhp, MaxHeightGenerated: c.Mhg,
+		ImpliesMaxPrevotes: true, ValidatorsHash: n.validatorsHash(c, current, next), AggregateCommit: n.AggregateCommit(c.Ac.H, c.Ac.Kind, c.Ac.Signers),
 	}
+	// the flag LIP-0058 prescribes (the engine does not check it today; a valid block carries the right value anyway)
+	hdr.ImpliesMaxPrevotes = n.impliesMaxPrevotes(hdr, c.Prev == "tip")
 	if c.TxRoot == "bad" {
 		hdr.TransactionRoot = bad(hdr.TransactionRoot)
 	}
 	if c.AssetRoot == "bad" {
 		hdr.AssetRoot = bad(hdr.AssetRoot)
 	}
-	if c.EventRoot == "bad" {
-		hdr.EventRoot = bad(hdr.EventRoot)
-	}
 	if c.StateRoot == "bad" {
 		hdr.StateRoot = bad(hdr.StateRoot)
-	}
-	if c.VHash == "bad" {
-		hdr.ValidatorsHash = bad(hdr.ValidatorsHash)
 	}
 	chainID := n.ChainID
 	if c.Sig == "wrongchain" {
@@ -684,6 +748,9 @@ func (n *Node) Build(c *Cand) *blockchain.Block {
 		hdr.Sign(chainID, Validator(c.Signer).PrivKey)
 		hdr.StateRoot = good
 		hdr.Init()
+	case "stale-ac":
+		// signed while carrying another aggregate commit (stripped / added afterwards)
+		resignWithOtherAC(hdr, chainID, Validator(c.Signer).PrivKey)
 	}
 	return &blockchain.Block{Header: hdr, Transactions: txs, Assets: assets}
 }
@@ -712,10 +779,13 @@ func (n *Node) Observe() (*Obs, error) {
 		return nil, err
 	}
 	o.Mhpv, o.Mhpc, o.Cert = a, b, c
+	if g := n.Cfg.GenesisHeight; g != 0 {
+		o.TipH, o.Fin, o.Mhpv, o.Mhpc, o.Cert = o.TipH-g, o.Fin-g, o.Mhpv-g, o.Mhpc-g, o.Cert-g
+	}
 	tb, err := n.Chain.DataAccess().GetTempBlocks()
 	if err == nil {
 		for _, x := range tb {
-			o.Temp = append(o.Temp, x.Header.Height)
+			o.Temp = append(o.Temp, x.Header.Height-n.Cfg.GenesisHeight)
 		}
 	}
 	sort.Slice(o.Temp, func(i, j int) bool { return o.Temp[i] < o.Temp[j] })
@@ -723,9 +793,12 @@ func (n *Node) Observe() (*Obs, error) {
 }
 
 // Dump is the full sorted content of the node database (hex "key=value" lines).
-func (n *Node) Dump() []string {
+func (n *Node) Dump() []string { return DumpDB(n.DB) }
+
+// DumpDB is Dump for a database no node runs on (C13: what a crash left behind, before a restart touches it).
+func DumpDB(d *db.DB) []string {
 	res := []string{}
-	for _, kv := range n.DB.Iterate([]byte{}, -1, false) {
+	for _, kv := range d.Iterate([]byte{}, -1, false) {
 		if len(kv.Key()) > 0 && kv.Key()[0] == 51 {
 			// state diff: the order of its entries follows Go map iteration; compare it as a set
 			d := &diffdb.Diff{}
@@ -790,6 +863,7 @@ func (n *Node) AutoCand(slot int, ntx int) (*Cand, error) {
 	c := &Cand{Version: 2, H: h, Prev: "tip", Slot: slot, Gen: gen, Signer: gen, Sig: "ok", Mhp: mhpv, Mhg: mhg,
 		TxRoot: "ok", AssetRoot: "ok", EventRoot: "ok", StateRoot: "ok", VHash: "ok", TxStatic: "ok", Payload: "ok", Ntx: ntx, Mut: "none"}
 	c.Ac.H, c.Ac.Kind, c.Ac.Signers = cert, "empty", []int{}
+	n.toAbstract(c)
 	return c, nil
 }
 
@@ -830,7 +904,18 @@ func (n *Node) CompetitorCand(slot int) (*Cand, error) {
 	c := &Cand{Version: 2, H: h, Prev: "parent", Slot: slot, Gen: gen, Signer: gen, Sig: "ok", Mhp: tip.Header.MaxHeightPrevoted, Mhg: mhg,
 		TxRoot: "ok", AssetRoot: "ok", EventRoot: "ok", StateRoot: "ok", VHash: "ok", TxStatic: "ok", Payload: "ok", Ntx: 0, Mut: "none"}
 	c.Ac.H, c.Ac.Kind, c.Ac.Signers = tip.Header.AggregateCommit.Height, "empty", []int{}
+	n.toAbstract(c)
 	return c, nil
+}
+
+// toAbstract: the heights of a candidate computed from the real node state become abstract ones (Build adds the offset again)
+func (n *Node) toAbstract(c *Cand) {
+	if g := n.Cfg.GenesisHeight; g != 0 {
+		c.H, c.Mhp, c.Ac.H = c.H-g, c.Mhp-g, c.Ac.H-g
+		if c.Mhg >= g {
+			c.Mhg -= g
+		}
+	}
 }
 
 // Extend applies a valid block in the given slot and returns it.
